@@ -67,3 +67,14 @@ package merkle_tree
 //@   ensures nodes: (len(v) >= 2 ==> dyncalls() == old(dyncalls()) + len(v) - 1) && (len(v) <= 1 ==> dyncalls() == old(dyncalls()))
 //@   ensures single: len(v) == 1 && v[0] != nil ==> result == v[0]
 //@   ensures size: (len(v) != 1 ==> len(result) == 32) && len(result) < 4294967296
+//@   ensures lone: len(v) == 1 && v[0] == nil ==> len(result) == 32
+
+// GP (E.3) Mb: a single non-nil item is hashed once; everything else is N's fold
+//@ func Mb
+//@   props C18
+//@   opt purecalls=1
+//@   opt countcalls=1
+//@   requires fn: hashFunc != nil && len(v) < 4294967296 && forall(k, 0, len(v), len(v[k]) < 4294967296) && len(nodePrefix) == 4
+//@   ensures single: len(v) == 1 && v[0] != nil ==> dyncalls() == old(dyncalls()) + 1
+//@   ensures fold: len(v) >= 2 ==> dyncalls() == old(dyncalls()) + len(v) - 1
+//@   ensures empty: len(v) == 0 ==> dyncalls() == old(dyncalls())
